@@ -77,3 +77,25 @@ Print Assumptions C08_cleanup_nonground_del.
 Theorem C08_cleanup_nonground_fwd : forall (sym_lt : sym -> sym -> Prop) (P P' : program) (I : list gatom), simple_prog P = true -> simple_prog P' = true -> (forall r : rule gatom gF, ground_prog sym_lt P I r -> exists r' : rule gatom gF, ground_prog sym_lt P' I r' /\ shortened gatom gF GPos (ground_prog sym_lt P I) r r') -> (forall r' : rule gatom gF, ground_prog sym_lt P' I r' -> exists r : rule gatom gF, ground_prog sym_lt P I r /\ shortened gatom gF GPos (ground_prog sym_lt P I) r r') -> forall T : Sym.interp, Sat.stable sym_lt P I T -> Sat.stable sym_lt P' I T.
 Proof. exact (@cleanup_nonground_fwd). Qed.
 Print Assumptions C08_cleanup_nonground_fwd.
+
+From NGO Require Import Syntax.Ast Sem.Sym Sem.Sat Meta.Cleanup Model.Cleanup Link.Ground Link.CleanupSem.
+
+Theorem C08_execute_core_sound : forall (sym_lt : sym -> sym -> Prop) (inputs : list pred) (prg : program) (prg' : list stmt), frag_prog prg = true -> execute_core inputs prg = Ok prg' -> forall I : list gatom, facts_over (in_inputs inputs) I -> forall T : Sym.interp, Sat.stable sym_lt prg I T <-> Sat.stable sym_lt prg' I T.
+Proof. exact (@execute_core_sound). Qed.
+Print Assumptions C08_execute_core_sound.
+
+Theorem C08_find_superseeded_meaning : forall (sym_lt : sym -> sym -> Prop) (inputs : list pred) (prg : program) (I : list gatom) (sups : list Mapping), heads_ok prg = true -> facts_over (in_inputs inputs) I -> _find_superseeded inputs nil prg = Ok sups -> Forall (mapping_ok sym_lt prg I) sups.
+Proof. exact (@find_superseeded_meaning). Qed.
+Print Assumptions C08_find_superseeded_meaning.
+
+Theorem C08_transitive_closure_meaning : forall (sym_lt : sym -> sym -> Prop) (P : program) (I : list gatom) (a cl : list Mapping), Forall (mapping_ok sym_lt P I) a -> transitive_closure a = Ok cl -> Forall (mapping_ok sym_lt P I) cl.
+Proof. exact (@transitive_closure_meaning). Qed.
+Print Assumptions C08_transitive_closure_meaning.
+
+Theorem C08_superseeded_meaning : forall (sym_lt : sym -> sym -> Prop) (P : program) (I : list gatom) (ss : list Mapping) (lhs rhs : lit), Forall (mapping_ok sym_lt P I) ss -> CleanupSpec.no_anon rhs = true -> _superseeded ss lhs rhs = Ok true -> exists (ln : string) (largs : list term) (le : bool) (sg : sign) (rn : string) (rargs : list term) (re : bool), lhs = Lit NoSign (ASym (TFun ln largs le)) /\ rhs = Lit sg (ASym (TFun rn rargs re)) /\ (forall t : term, In t rargs -> In t largs) /\ (forall (s : subst) (vs : list sym), eval_list s largs = Some vs -> exists ws : list sym, eval_list s rargs = Some ws /\ ((rn, ws) = (ln, vs) /\ sg <> Neg /\ CleanupSpec.same_pred lhs rhs = true \/ imp gatom gF GPos (ground_prog sym_lt P I) (ln, vs) (sign_form sg (rn, ws)))).
+Proof. exact (@superseeded_meaning). Qed.
+Print Assumptions C08_superseeded_meaning.
+
+Theorem C08_create_mappings_meaning : forall (sym_lt : sym -> sym -> Prop) (p : pred) (ln : nat) (n : string) (hargs : list term) (e : bool) (body : list bodyelem) (loc : list Mapping) (m : Mapping), _compute_local_superseed p (SRule ln (HLit (Lit NoSign (ASym (TFun n hargs e)))) body) = Ok loc -> In m loc -> p = (n, Datatypes.length hargs) /\ head_pred m = p /\ mapping_wf m /\ mapping_holds_in (ground_rule sym_lt (SRule ln (HLit (Lit NoSign (ASym (TFun n hargs e)))) body)) m.
+Proof. exact (@create_mappings_meaning). Qed.
+Print Assumptions C08_create_mappings_meaning.
